@@ -11,6 +11,7 @@ package main
 
 import (
 	"go/ast"
+	"go/token"
 	"go/types"
 	"sort"
 	"strings"
@@ -97,6 +98,7 @@ type seqRun struct {
 	madeMap   map[string]int
 	opnd      func(Term) bool // the native operand of a From-constructor (a slice or map of opndLen symbolic entries)
 	opndLen   int
+	opndArr   int                       // the operand's own array, once it has been read as a slice
 	sliceVars map[types.Object]seqSlice // loop-carried slice locals (accumulate-then-assign)
 	why       string
 	panic     string
@@ -160,6 +162,13 @@ func (r *seqRun) containerKey(t Term) string {
 			continue
 		}
 		break
+	}
+	// R.Add(…) / R.Set(…) as a value: a fluent method hands back the registered ego of R (every return of the method has origin
+	// receiver-via-ego, E3 as in C19.R1) — for a container made and registered in this call, that container
+	if call, ok := t.(TCall); ok && call.Recv != nil && r.c.isFluentMethod(call.Fun) {
+		if k := r.containerKey(call.Recv); k != "" {
+			return k
+		}
 	}
 	if r.v.isSelf(t) {
 		return "recv"
@@ -540,6 +549,21 @@ func (r *seqRun) keySym(t Term) string {
 func (r *seqRun) slice(t Term) (seqSlice, bool) { return r.sliceAt(t, -1) }
 
 func (r *seqRun) sliceAt(t Term, epoch int) (seqSlice, bool) {
+	// the native operand itself, when it is a slice: its symbolic entries, in order (NewListFrom([]any) handing it on: Add(s...))
+	if r.opnd != nil && r.opnd(t) {
+		if tt := r.c.termType(t); tt != nil {
+			if _, isSl := tt.Underlying().(*types.Slice); isSl {
+				if r.opndArr == 0 {
+					var cs []string
+					for i := 0; i < r.opndLen; i++ {
+						cs = append(cs, "$s["+itoa(i)+"]")
+					}
+					r.opndArr = r.newArr(cs)
+				}
+				return seqSlice{id: r.opndArr, len: r.opndLen, cap: r.opndLen}, true
+			}
+		}
+	}
 	switch x := t.(type) {
 	case TNil:
 		return seqSlice{}, true
@@ -950,6 +974,35 @@ func (r *seqRun) feasible(p *Path, upTo int) (bool, bool) {
 		}
 		if st.Kind != "cond" {
 			continue
+		}
+		// `values == nil` for the pack of a variadic parameter: with arguments it is not nil; with none it may be either (f() hands
+		// nil, f(empty...) an empty slice) — both ways are followed
+		if b, ok := st.Cond.T.(TBin); ok && (b.Op == token.EQL || b.Op == token.NEQ) {
+			x := b.X
+			if _, isN := b.Y.(TNil); !isN {
+				x = nil
+				if _, isN := b.X.(TNil); isN {
+					x = b.Y
+				}
+			}
+			if tv, ok := x.(TVar); ok {
+				cnt, known := -1, false
+				if k, has := r.nVals[tv.Obj]; has {
+					cnt, known = k, true
+				} else if a, has := r.intArgs[tv.Obj]; has {
+					cnt, known = len(a), true
+				}
+				if known {
+					if cnt == 0 {
+						continue
+					}
+					isNil := false
+					if (b.Op == token.EQL) == isNil != st.Cond.Truth {
+						return false, true
+					}
+					continue
+				}
+			}
 		}
 		e := &termEnv{hook: r.intHook(), bhook: func(t Term) (bool, bool) {
 			// sort.IntsAreSorted(indexes): decided on the index list as it is now
@@ -1684,4 +1737,38 @@ func wantCopy(k int) ([]string, map[string]string) {
 		m["k"+itoa(j)] = "pv(copy(e" + itoa(j) + "))"
 	}
 	return l, m
+}
+
+// isFluentMethod: f is (the interface method or the implementation of) a container method all of whose returns are the registered
+// ego of its receiver.
+func (c *Ctx) isFluentMethod(f *types.Func) bool {
+	if f == nil {
+		return false
+	}
+	a := c.E3()
+	found := false
+	for _, ct := range c.Inv().Conts {
+		if ct.Iface == nil {
+			continue
+		}
+		sig, ok := f.Type().(*types.Signature)
+		if !ok || sig.Results().Len() != 1 || !types.Identical(sig.Results().At(0).Type(), ct.Iface) {
+			continue
+		}
+		fn := a.ByName("(*" + ct.Named.Obj().Name() + ")." + f.Name())
+		if fn == nil {
+			continue
+		}
+		s := a.sum[fn]
+		if len(s.RetEach) == 0 {
+			return false
+		}
+		for _, o := range s.RetEach {
+			if o&oBARE != 0 || o&oROOTS != oRECV || o&oVIAEGO == 0 {
+				return false
+			}
+		}
+		found = true
+	}
+	return found
 }
